@@ -251,4 +251,32 @@ example :
   revert c
   decide
 
+/-- **clone_deep (alignment.Seq, alignment.QSeq), one step.** `Clone` of a well-formed
+    alignment gives an alignment whose columns read exactly as the original's, all in backing
+    arrays that did not exist before (pairwise different), with its own copy of the row
+    annotations (after fix F6; `SubAnnotations` are values in the model); no array of the
+    original is changed.  Hence a write through a column of either alignment is not seen
+    through any column of the other. -/
+theorem clone_deep_alignment (cx : Ctx) (h : Cells) (a : Aln) (n : Nat) (hw : ColsWF h n a.cols) :
+    All2 (fun c c' => (a.clone cx h).1.read c' = h.read c ∧ h.arrays.length ≤ c'.arr)
+      a.cols (a.clone cx h).2.cols ∧
+    ColsWF (a.clone cx h).1 n (a.clone cx h).2.cols ∧
+    (∀ c ∈ a.cols, (a.clone cx h).1.read c = h.read c) ∧
+    (a.clone cx h).2.subs = a.subs ∧ (a.clone cx h).2.strand = a.strand ∧
+    -- writes through the copy are invisible through the original, and vice versa
+    (∀ c ∈ a.cols, ∀ c' ∈ (a.clone cx h).2.cols, ∀ (i : Nat) (v : QL),
+        ((a.clone cx h).1.set c' i v).read c = (a.clone cx h).1.read c ∧
+        ((a.clone cx h).1.set c i v).read c' = (a.clone cx h).1.read c') := by
+  obtain ⟨news, h2, hall, hpw, _, hfr⟩ := cloneColsFold_spec cx n a.cols h [] hw.1
+  rw [Aln.clone_eq]
+  simp only [List.nil_append] at h2
+  simp only [h2]
+  refine ⟨hall.imp fun c c' hcc => ⟨hcc.1, hcc.2.1⟩,
+          ⟨fun c' hc' => by obtain ⟨c, _, hr⟩ := hall.exists_left c' hc'; exact hr.2.2, hpw⟩,
+          fun c hc => read_congr_arr _ _ _ (hfr _ (hw.1 c hc).1), trivial, trivial, ?_⟩
+  intro c hc c' hc' i v
+  obtain ⟨c0, _, hr⟩ := hall.exists_left c' hc'
+  have hne : c'.arr ≠ c.arr := by have := hr.2.1; have := (hw.1 c hc).1; omega
+  exact ⟨Heap.read_set_other _ _ _ _ _ hne, Heap.read_set_other _ _ _ _ _ hne.symm⟩
+
 end Biogo.Properties.C05
